@@ -320,13 +320,20 @@ def regex_full(ctx: Ctx) -> List[Ob]:
     """pattern searches match the whole name (fullmatch), for both the str and the (pattern, flags) form"""
     obs: List[Ob] = []
     f = ctx.model.func("Node._search")
+    # names bound to a compiled pattern
+    pats = {t.id for n in iter_own(f.node) if isinstance(n, ast.Assign) and isinstance(n.value, ast.Call) and norm(n.value.func) == "re.compile"
+            for t in n.targets if isinstance(t, ast.Name)} | {"re"}
+    k = 0
     for n in iter_own(f.node):
         if isinstance(n, ast.Call) and isinstance(n.func, ast.Attribute) and n.func.attr in ("match", "search", "fullmatch", "findall"):
-            if isinstance(n.func.value, ast.Name) and n.func.value.id in ("pattern", "re"):
+            if isinstance(n.func.value, ast.Name) and n.func.value.id in pats:
                 ok = n.func.attr == "fullmatch"
-                arg_ok = bool(n.args) and norm(n.args[-1]) in ("node.name",)
-                obs.append(ctx.ob("REGEX-FULL", ["C09"], f, norm(n), n, ok and arg_ok,
-                                  "" if ok and arg_ok else "a pattern must match the node's full name (fullmatch on node.name)"))
+                lam = ctx.model.parent_of(n)
+                argname = lam.args.args[0].arg if isinstance(lam, ast.Lambda) and lam.args.args else "node"
+                arg_ok = bool(n.args) and norm(n.args[-1]) == f"{argname}.name"
+                k += 1
+                obs.append(ctx.ob("REGEX-FULL", ["C09"], f, f"pattern matcher #{k} uses fullmatch on the node name", n, ok and arg_ok,
+                                  "" if ok and arg_ok else f"`{norm(n)}`: a pattern must match the node's full name (fullmatch on node.name)"))
     # the predicate result is used un-negated to select
     return obs
 
